@@ -11,6 +11,7 @@
 #include "bee2/crypto/bign.h"
 #include "bee2/crypto/bake.h"
 #include "bee2/crypto/bpki.h"
+#include "bee2/crypto/btok.h"
 #include "bee2/crypto/pfok.h"
 #include "bee2/crypto/stb99.h"
 #include "bee2/crypto/dstu.h"
@@ -468,7 +469,10 @@ static void gen_bakeStart(fc_ctx* c, int proto)
 	}
 	cert->data = cd, cert->len = pref + 2 * l4, cert->val = fc_certval;
 	c->a[10] = p, c->a[11] = st, c->a[12] = cert, c->a[1] = d;
-	c->n[0] = proto == 0 ? bakeBMQV_keep(p->l) : proto == 1 ? bakeBSTS_keep(p->l) : bakeBPACE_keep(p->l);
+	if (proto >= 3)
+		st->kca = TRUE;          /* BAUTH: the terminal always confirms */
+	c->n[0] = proto == 0 ? bakeBMQV_keep(p->l) : proto == 1 ? bakeBSTS_keep(p->l) : proto == 2 ? bakeBPACE_keep(p->l) :
+		proto == 3 ? btokBAuthT_keep(p->l) : btokBAuthCT_keep(p->l);
 	c->a[0] = sk_alloc(c->n[0]);
 	c->n[5] = (size_t)proto;
 	c->n[1] = proto == 2 ? 16 : l4;
@@ -477,12 +481,16 @@ static void gen_bakeStart(fc_ctx* c, int proto)
 static void gen_BMQVStart(fc_ctx* c) { gen_bakeStart(c, 0); }
 static void gen_BSTSStart(fc_ctx* c) { gen_bakeStart(c, 1); }
 static void gen_BPACEStart(fc_ctx* c) { gen_bakeStart(c, 2); }
+static void gen_BAuthTStart(fc_ctx* c) { gen_bakeStart(c, 3); }
+static void gen_BAuthCTStart(fc_ctx* c) { gen_bakeStart(c, 4); }
 static err_t call_bakeStart(fc_ctx* c)
 {
 	switch (c->n[5])
 	{
 	case 0: return bakeBMQVStart(c->a[0], c->a[10], c->a[11], c->a[1], c->a[12]);
 	case 1: return bakeBSTSStart(c->a[0], c->a[10], c->a[11], c->a[1], c->a[12]);
+	case 3: return btokBAuthTStart(c->a[0], c->a[10], c->a[11], c->a[1], c->a[12]);
+	case 4: return btokBAuthCTStart(c->a[0], c->a[10], c->a[11], c->a[1], c->a[12]);
 	default: return bakeBPACEStart(c->a[0], c->a[10], c->a[11], c->a[1], c->n[1]);
 	}
 }
@@ -514,6 +522,11 @@ static int bad_bakeStart(fc_ctx* c, int j, err_t* exp)
 	case 6: memset(cert->data + cert->len - p->l / 2, 0xFF, p->l / 4); exp[0] = ERR_BAD_CERT; return 1;  /* x >= p */
 	case 7: cert->val = 0; exp[0] = ERR_BAD_INPUT; return 1;
 	case 8: case 9:
+		if (c->n[5] >= 3)
+		{
+			/* BAUTH: kca is mandatory, kcb optional */
+			st->kca = FALSE; exp[0] = ERR_BAD_INPUT; return 1;
+		}
 		if (c->n[5] != 1)
 		{
 			/* BMQV: key confirmation is optional; nothing to violate here */
@@ -542,5 +555,7 @@ const fc_desc fc_params[] = {
 	D("bakeBMQVStart", gen_BMQVStart, call_bakeStart, bad_bakeStart, FC_SECRET),
 	D("bakeBSTSStart", gen_BSTSStart, call_bakeStart, bad_bakeStart, FC_SECRET),
 	D("bakeBPACEStart", gen_BPACEStart, call_bakeStart, bad_bakeStart, FC_SECRET),
+	D("btokBAuthTStart", gen_BAuthTStart, call_bakeStart, bad_bakeStart, FC_SECRET),
+	D("btokBAuthCTStart", gen_BAuthCTStart, call_bakeStart, bad_bakeStart, FC_SECRET),
 };
 const unsigned fc_params_n = sizeof(fc_params) / sizeof(fc_params[0]);
